@@ -309,6 +309,10 @@ theorem setThresholds_scalar_nested {v : PyVal} (h : isReal v = true) (n : Nat) 
 theorem setThresholds_none (n : Nat) (nest : Bool) : setThresholds .none n nest = typeError := by
   cases nest <;> simp [setThresholds, getThresholds, getNestedThresholds, typeError]
 
+theorem setThresholds_opaque (t : String) (n : Nat) (nest : Bool) :
+    setThresholds (.other t) n nest = typeError := by
+  cases nest <;> simp [setThresholds, getThresholds, getNestedThresholds, typeError]
+
 theorem setThresholds_str (s : String) (n : Nat) (nest : Bool) :
     setThresholds (.str s) n nest = thresholdError := by
   cases nest <;> simp [setThresholds, getThresholds, getNestedThresholds, thresholdError]
@@ -359,6 +363,13 @@ theorem flat_accept_iff (v : PyVal) (n : Nat) (r : PyVal) :
       · cases e
   | str s =>
     rw [setThresholds_str]
+    constructor
+    · intro h; cases h
+    · rintro (⟨h, _⟩ | ⟨xs, e, _⟩)
+      · exact absurd h hv
+      · cases e
+  | other t =>
+    rw [setThresholds_opaque]
     constructor
     · intro h; cases h
     · rintro (⟨h, _⟩ | ⟨xs, e, _⟩)
@@ -435,6 +446,14 @@ theorem nested_accept_iff (v : PyVal) (n : Nat) (r : PyVal) :
       · cases e
   | str s =>
     rw [setThresholds_str]
+    constructor
+    · intro h; cases h
+    · rintro ⟨_, ⟨h, _⟩ | ⟨xs, e, _⟩ | ⟨xs, e, _⟩⟩
+      · exact absurd h hv
+      · cases e
+      · cases e
+  | other t =>
+    rw [setThresholds_opaque]
     constructor
     · intro h; cases h
     · rintro ⟨_, ⟨h, _⟩ | ⟨xs, e, _⟩ | ⟨xs, e, _⟩⟩
